@@ -261,6 +261,15 @@ def run(ctx):
         own = set(sub.methods)
         ok = ("interleave" in own) == ("deinterleave" in own) or "as_bits" in own
         ctx.ob("burst/override-pairs", sub.qualname, ok, f"overrides {sorted(own & {'interleave', 'deinterleave', 'as_bits'})}", sub.loc)
+    # the rate-3/4 payload goes through the Trellis inverse pair that C10 establishes; its table part is re-evaluated here
+    import importlib
+    from sa.report import Ctx as _Ctx
+    ctx.rule("assume/trellis-tables", "the trellis tables the rate 3/4 bursts depend on pass C10's table rules (unique inversion, bijections, pinned ETSI values)")
+    sub = _Ctx("C10", ctx.tier, ctx.seed, repo, quiet=True)
+    importlib.import_module("rules.c10").run(sub, tables_only=True)
+    for o in sub.obligations:
+        ctx.ob("assume/trellis-tables", o["rule"] + " | " + o["key"].split("|", 1)[1].strip(), o["ok"], o["detail"], o["loc"])
+    ctx.require("assume/trellis-tables", 5)
     ctx.require("burst/payload-roundtrip", 32)
     ctx.require("burst/voice-sync", 4)
     ctx.require("burst/voice-emb", 1)
